@@ -462,7 +462,7 @@ def _close_disjunctions(fs):
     return frozenset(facts)
 
 
-def pure_locals(fnode):
+def pure_locals(fnode, keep=()):
     """name -> defining expression, for locals of the function that are bound exactly once by `name = <expr>`, are never
     mutated (no subscript/attribute store on them, not an augmented-assignment target) and whose expression is not an array
     allocation and mentions no name that is bound after the definition.  Substituting such a local by its definition does
@@ -534,8 +534,8 @@ def pure_locals(fnode):
     ALLOC = {'zeros', 'ones', 'empty', 'eye', 'identity', 'array', 'asarray', 'copy', 'deepcopy', 'list', 'dict', 'set', 'full'}
     out = {}
     for name, ds in defs.items():
-        if counts.get(name, 0) != 1 or name in mutated or name in params:
-            continue
+        if counts.get(name, 0) != 1 or name in mutated or name in params or name in keep:
+            continue          # keep: names the caller wants to stay symbolic
         st = ds[0]
         v = st.value
         if isinstance(v, (ast.List, ast.Dict, ast.Set, ast.ListComp, ast.DictComp, ast.SetComp, ast.GeneratorExp, ast.Lambda, ast.Yield, ast.Await)):
